@@ -1,0 +1,79 @@
+//go:build verif
+
+package config
+
+// Contracts for govc (see /verif/DESIGN.md). Comments only; compiled only with -tags verif.
+
+// ---- C11: a configuration that compiles leaves every pull route with a non-empty effective token allowlist ----
+// Compile is ~800 lines; only the facts this clause needs are carried: which routes got a pull block with which token
+// list, the two flags, and that validation errors are never removed. Every helper below is trusted to touch nothing but
+// the ValidationResult it is handed (and, for applyVarsToConfig, the cloned Config before the route loop).
+
+//@ func applyVarsToConfig
+//@   trusted
+//@   modifies *
+//@ func cloneConfig
+//@   trusted
+//@   ensures result1 == nil ==> result0 != nil && fresh(result0)
+//@ func compileAPI
+//@   trusted
+//@ func compileDLQRetention
+//@   trusted
+//@ func compileDefaults
+//@   trusted
+//@ func compileDeliveredRetention
+//@   trusted
+//@ func compileIngress
+//@   trusted
+//@ func compileObservability
+//@   trusted
+//@ func compileQueueLimits
+//@   trusted
+//@ func compileQueueRetention
+//@   trusted
+//@ func compileSecrets
+//@   trusted
+//@ func compileVars
+//@   trusted
+//@ func hasPathPrefix
+//@   trusted
+//@ func isMethodToken
+//@   trusted
+//@ func normalizePathValue
+//@   trusted
+//@ func parseBoolValue
+//@   trusted
+//@ func parseByteSize
+//@   trusted
+//@ func parsePositiveDuration
+//@   trusted
+//@ func secrets.ValidateRef
+//@   trusted
+//@ func compileForwardAuthConfig
+//@   trusted
+//@   modifies ValidationResult.*
+//@   ensures res != nil ==> len(res.Errors) >= old(len(res.Errors))
+//@ func compileMatch
+//@   trusted
+//@   modifies ValidationResult.*
+//@   ensures res != nil ==> len(res.Errors) >= old(len(res.Errors))
+//@ func compileRateLimitConfig
+//@   trusted
+//@   modifies ValidationResult.*
+//@   ensures res != nil ==> len(res.Errors) >= old(len(res.Errors))
+//@ func compileRetry
+//@   trusted
+//@   modifies ValidationResult.*
+//@   ensures res != nil ==> len(res.Errors) >= old(len(res.Errors))
+//@ func resolveValue
+//@   trusted
+//@   modifies ValidationResult.*
+//@   ensures res != nil ==> len(res.Errors) >= old(len(res.Errors))
+
+//@ func Compile
+//@   requires cfg != nil
+//@   modifies *
+//@   sets compiledOKContent := ite(result1.OK && cfg == lastParsedCfg, lastParsed, old(compiledOKContent))
+//@   loop 2 invariant [pull_routes_have_own_tokens_or_the_flag_is_set] forall k int :: 0 <= k && k < len(routes) && routes[k].Pull != nil ==> hasPullRoutes && (len(routes[k].Pull.AuthTokens) > 0 || pullRoutesMissingAuth)
+//@   ensures [C11:compiled_pull_routes_have_a_nonempty_effective_allowlist] result1.OK ==> forall k int :: 0 <= k && k < len(result0.Routes) && result0.Routes[k].Pull != nil ==> len(result0.Routes[k].Pull.AuthTokens) > 0 || len(result0.PullAPI.AuthTokens) > 0
+//@   ensures [C11:ok_means_no_validation_error] result1.OK <==> len(result1.Errors) == 0
